@@ -491,10 +491,12 @@ Proof.
   repeat match goal with |- veq (match ?c with _ => _ end) _ => destruct c end; constructor.
 Qed.
 
-Lemma sum_loop_veq : forall l l', Forall2 veq l l' -> forall r, sum_loop l r = sum_loop l' r.
+Lemma sum_loop_veq : forall l l', Forall2 veq l l' ->
+  forall total special finite, sum_loop l total special finite = sum_loop l' total special finite.
 Proof.
-  induction 1 as [|a b l l' Hab H IH]; intros r; cbn [sum_loop]; [reflexivity|].
-  rewrite (to_decimal_veq _ _ Hab). destruct (to_decimal b); [apply IH|reflexivity].
+  induction 1 as [|a b l l' Hab H IH]; intros total special finite; cbn [sum_loop]; [reflexivity|].
+  rewrite (to_decimal_veq _ _ Hab). destruct (to_decimal b) as [d|]; [|reflexivity].
+  cbv zeta. destruct (finite && is_fin d); apply IH.
 Qed.
 Lemma sum_veq : forall x x', veq x x' -> oeqL (sum x) (sum x').
 Proof.
